@@ -248,6 +248,39 @@ impl Probe for ReadBackProbe {
                     cx.violation("C04", "C04:commit-with-nothing-staged-had-an-effect", sc, hist,
                         json!({"replica": r, "outcome": o.text(), "storage_changed": before != after, "state_differs": diff_keys(&k1, &k2)}));
                 }
+                // ... and submitting what is already there records nothing: every live object re-submitted through
+                // the object API with its current content, and re-created with the content of its creation revision
+                w.focus();
+                let m = &w.reps[r].m;
+                for uuid in m.get_all_objects() {
+                    if uuid.starts_with('^') {
+                        continue;
+                    }
+                    let tree = m.verif_dump_tree(&uuid).unwrap_or_default();
+                    let Some((creation, _, _)) = tree.iter().find(|(_, p, _)| p.is_none()) else { continue };
+                    let Ok(v0) = m.get_value(&uuid, Some(creation)) else { continue };
+                    if v0.contains_key("_deleted") || v0.contains_key("_resolved") {
+                        continue;
+                    }
+                    // (values orphaned by remove_object may already sit in the data stage: compare with the export before)
+                    let exported_before = m.stage().ok().flatten();
+                    let r1 = crate::guard::call("create_object(same)", || m.create_object(&uuid, v0.clone()).map_err(|e| e.to_string()));
+                    let mut what = vec![format!("create_object({}, <content of {}>) -> {:?}", uuid, creation, r1)];
+                    if let Ok(cur) = m.get_value(&uuid, None) {
+                        if !cur.contains_key("_deleted") {
+                            let r2 = crate::guard::call("update_object(same)", || m.update_object(&uuid, cur.clone()).map_err(|e| e.to_string()));
+                            what.push(format!("update_object({}, <current content>) -> {:?}", uuid, r2));
+                        }
+                    }
+                    cx.count("resubmissions_of_existing_content");
+                    let staged = has_staging(m);
+                    let exported = m.stage().ok().flatten();
+                    if staged || exported != exported_before {
+                        cx.violation("C04", "C04:resubmitting-existing-content-staged-something", sc, hist,
+                            json!({"replica": r, "calls": what, "has_staging": staged, "stage_export": exported}));
+                        break;
+                    }
+                }
             }
         }
     }
